@@ -625,14 +625,27 @@ impl<'a, 'b> GeneratorState<'a> {
                         }
                         self.sasm(TYA)?;
                         self.acc_in_use = true;
-                        return self.generate_condition_ex(
-                            &ExprType::A(false),
-                            op,
-                            r,
-                            pos,
-                            negate,
-                            label,
-                        );
+                        // The accumulator takes the place of the register, on the side
+                        // of the comparison where the register was written
+                        return if switch {
+                            self.generate_condition_ex(
+                                l,
+                                op,
+                                &ExprType::A(false),
+                                pos,
+                                negate,
+                                label,
+                            )
+                        } else {
+                            self.generate_condition_ex(
+                                &ExprType::A(false),
+                                op,
+                                r,
+                                pos,
+                                negate,
+                                label,
+                            )
+                        };
                     }
                 }
             }
@@ -678,14 +691,27 @@ impl<'a, 'b> GeneratorState<'a> {
                         }
                         self.sasm(TXA)?;
                         self.acc_in_use = true;
-                        return self.generate_condition_ex(
-                            &ExprType::A(false),
-                            op,
-                            r,
-                            pos,
-                            negate,
-                            label,
-                        );
+                        // The accumulator takes the place of the register, on the side
+                        // of the comparison where the register was written
+                        return if switch {
+                            self.generate_condition_ex(
+                                l,
+                                op,
+                                &ExprType::A(false),
+                                pos,
+                                negate,
+                                label,
+                            )
+                        } else {
+                            self.generate_condition_ex(
+                                &ExprType::A(false),
+                                op,
+                                r,
+                                pos,
+                                negate,
+                                label,
+                            )
+                        };
                     }
                 }
             }
